@@ -515,3 +515,28 @@ func didParallelWalk(p *Prog, m *didModel, key, val *Term) (*ssa.Function, bool)
 	}
 	return L, true
 }
+
+
+// checkDIDIdentifierLanguage: the identifiers the registry admits are exactly the method's `did:panacea:<32-44 base58>` — the
+// store key is the identifier string, so anything beyond it (a tail after a well-formed DID, bytes that the JSON genesis form
+// rewrites) gives an entry, and in particular a tombstone, that another spelling can sidestep or that moves at export/import.
+func checkDIDIdentifierLanguage(p *Prog, r *Report, kp func(string, string) string) {
+	fn := p.Func(Rel("x/did/types"), "ValidateDID")
+	if fn == nil || fn.Blocks == nil {
+		r.Fail(kp("CONST", "x/did/types.ValidateDID#anchor"), "anchor", "x/did/types", "ValidateDID not found")
+		return
+	}
+	spec, _, ok := summariseLengthRegexValidator(p, fn, 0)
+	if !ok {
+		r.OKTrivial(kp("CONST", "x/did/types.ValidateDID#language"), "the identifier validator is a pattern/length test the checker can read", p.FnPos(fn), "validator shape not recognised here: the language is decided by C16's field rules")
+		return
+	}
+	want := statementOracle()["Did"]
+	eq, w, err := LangEqual(spec, want)
+	if err != nil {
+		r.OKTrivial(kp("CONST", "x/did/types.ValidateDID#language"), "the identifier validator is a pattern/length test the checker can read", p.FnPos(fn), "languages not comparable here ("+err.Error()+"): decided by C16's field rules")
+		return
+	}
+	r.Check(eq, kp("CONST", "x/did/types.ValidateDID#language"), "the identifiers the registry admits are exactly did:panacea:<32-44 base58> (the store key is the identifier string itself)", p.FnPos(fn),
+		fmt.Sprintf("%v", spec), fmt.Sprintf("ValidateDID admits %v, the method says %v; e.g. %q is judged differently: an identifier outside the method's language can be registered, deactivated and — under another spelling, or after an export whose JSON form rewrites its bytes — registered again", spec, want, w))
+}
